@@ -179,3 +179,114 @@ _orig_run = run
 def run(ctx):  # noqa: F811
     _orig_run(ctx)
     declarations(ctx)
+
+# ------------------------------------------------------------------------------------------------
+# shape sweep: a value whose shape differs from the declared one IN ANY WAY - other rank, other size, or the same rank
+# and size with other dimensions (a transposed array) - is rejected and leaves no trace
+
+SHAPES = [((2, 3), [(3, 2), (6,), (2, 3, 1), (1, 2, 3), (2, 2), (1, 6), ()]),
+          ((2,), [(1, 2), (2, 1), (3,), (1,), ()]),
+          ((), [(1,), (1, 1)]),
+          ((1,), [(), (1, 1), (2,)]),
+          ((2, 1, 2), [(2, 2, 1), (1, 2, 2), (4,), (2, 2)])]
+
+
+def shape_cells(task: dict) -> dict:
+    import shutil
+    import tempfile
+    import traceback
+    from pathlib import Path
+    import numpy as np
+    out = {"error": None, "cells": []}
+    tmp = Path(tempfile.mkdtemp(prefix="verif_c18s_"))
+    try:
+        from sedpack.io import Dataset, Metadata
+        from sedpack.io.metadata import Attribute, DatasetStructure
+        fmt, k = task["fmt"], 0
+        for declared, wrongs in SHAPES:
+            for wrong in wrongs:
+                for pos in ("first", "middle", "last"):      # which attribute carries the wrong shape
+                    k += 1
+                    names = ["a", "b", "c"]
+                    bad_name = names[("first", "middle", "last").index(pos)]
+                    st = DatasetStructure(
+                        saved_data_description=[Attribute(name="id", dtype="int64", shape=(1,))] +
+                        [Attribute(name=n, dtype="float32", shape=declared) for n in names],
+                        compression="", examples_per_shard=2, shard_file_type=fmt, hash_checksum_algorithms=("md5",))
+                    ds = Dataset.create(tmp / f"d{k}", Metadata(description="shapes"), st)
+
+                    def ex(i, odd=False):
+                        d = {"id": np.array([i], np.int64)}
+                        for n in names:
+                            shp = wrong if (odd and n == bad_name) else declared
+                            d[n] = (np.arange(int(np.prod(shp)), dtype=np.float32) + i).reshape(shp)
+                        return d
+                    cell = {"fmt": fmt, "declared": declared, "presented": wrong, "attribute": pos, "results": [],
+                            "detail": ""}
+                    good_ids = []
+                    try:
+                        with ds.filler() as f:
+                            # the odd write is the second of the first shard and the first of the third
+                            for i, odd in ((1, False), (2, True), (3, False), (4, False), (5, True), (6, False)):
+                                try:
+                                    f.write_example(values=ex(i, odd), split="train")
+                                    cell["results"].append("acc")
+                                    if odd:
+                                        cell["detail"] = f"write {i} with shape {wrong} for declared {declared} accepted"
+                                except Exception as exc:  # pylint: disable=broad-except
+                                    cell["results"].append("rej:" + type(exc).__name__)
+                                    if not odd:
+                                        cell["detail"] = f"good write {i} rejected: {type(exc).__name__}"
+                                if not odd:
+                                    good_ids.append(i)
+                    except Exception as exc:  # pylint: disable=broad-except
+                        cell["detail"] = cell["detail"] or f"session failed: {type(exc).__name__}: {str(exc)[:120]}"
+                        out["cells"].append(cell)
+                        continue
+                    try:
+                        got = [(int(np.asarray(e["id"]).reshape(-1)[0]),
+                                all(np.array_equal(np.asarray(e[n]), ex(int(np.asarray(e["id"]).reshape(-1)[0]))[n])
+                                    for n in names))
+                               for e in Dataset(tmp / f"d{k}").as_numpy_iterator(split="train", shuffle=0, repeat=False)]
+                        if [g[0] for g in got] != good_ids or not all(g[1] for g in got):
+                            cell["detail"] = cell["detail"] or f"good writes {good_ids} read back as {got}"
+                    except Exception as exc:  # pylint: disable=broad-except
+                        cell["detail"] = cell["detail"] or f"reading raised {type(exc).__name__}: {str(exc)[:120]}"
+                    out["cells"].append(cell)
+    except Exception:  # pylint: disable=broad-except
+        out["error"] = traceback.format_exc()
+    finally:
+        shutil.rmtree(tmp, ignore_errors=True)
+    return out
+
+
+def shapes(ctx):
+    from .. import dshist as H
+    from ..core import MachineryError
+    tasks = [{"fmt": fmt} for fmt in ("fb", "npz", "tfrec")]
+    try:
+        outs = H.run_histories(tasks, fn=shape_cells)
+    finally:
+        H.shutdown_pool()
+    n = 0
+    for o in outs:
+        if o["error"]:
+            raise MachineryError(o["error"])
+        for c in o["cells"]:
+            n += 1
+            if c["detail"]:
+                same = len(c["declared"]) == len(c["presented"])
+                ctx.violation(f"C18|kind=shape-sweep|fmt={c['fmt']}|rank={'same' if same else 'other'}",
+                              f"{c['fmt']} float32 attribute declared {tuple(c['declared'])}, {c['attribute']} attribute "
+                              f"presented as {tuple(c['presented'])}: {c['detail']} (writes {c['results']})", {"cell": c})
+    ctx.cov["shape_cells"] = n
+    ctx.log(f"{n} (format, declared shape, presented shape, attribute position) cells: the odd write is rejected, "
+            f"the good ones read back unchanged")
+
+
+_decl_run = run
+
+
+def run(ctx):  # noqa: F811
+    _decl_run(ctx)
+    shapes(ctx)
